@@ -455,6 +455,9 @@ func (p *PIDZero) startRunnable(r Runnable) error {
 	if stateable, ok := r.(Stateable); ok {
 		initialState := stateable.GetState()
 		p.stateMap.Store(r, initialState)
+		// The state monitor discards a first channel value equal to this one, so subscribers
+		// that are already listening learn about the new entry here.
+		p.broadcastState()
 		p.logger.Debug("Initial state", "runnable", r, "state", initialState)
 	}
 
